@@ -1719,7 +1719,7 @@ fn main() {
     run.track_inflight(false);
 
     // 1. containers
-    let n = run.scale(160_000, 6_000_000);
+    let n = run.scale(160_000, 4_000_000);
     run.section(
         "containers",
         "14 base containers (array/slice/Vec x Coor2D/3D/4D/32, user 1-D and 3-D containers on trait defaults) x 5 wrappings (plain, (T,h,t), (T,t), nested both ways) x random histories of set_coord/set_xy/set_xyz/set_xyzt/stomp over all f64 classes; after every write all readers of all indices are compared bit for bit with the view model; non-trivial = at least one indexed write on a non-empty container, distinct by kind and history",
@@ -1729,7 +1729,7 @@ fn main() {
     );
 
     // 2. tuples
-    let n = run.scale(160_000, 6_000_000);
+    let n = run.scale(160_000, 4_000_000);
     run.section(
         "tuples",
         "8 tuple types (Coor2D/3D/4D/32, (f64,f64), user types of dimension 1, 3, 5 on trait defaults) x random histories of set_nth(n in 0..8)/set_xy/set_xyz/set_xyzt/update/fill over all f64 classes; after every write nth(0..8), x/y/z/t, xy/xyz/xyzt, [] and nth_unchecked in range are compared with the model (NaN beyond the dimension); then unit conversions, scale, dot, hypot, operators (+ - * /, by value and by reference, incl. Coor2D op Coor32) and constructors against element-wise definitions; every case reads indices >= dim",
@@ -1749,7 +1749,7 @@ fn main() {
     );
 
     // 4. lattice of [-720, 720] degrees
-    let q: u32 = if run.is_thorough() { 256 } else { 4 };
+    let q: u32 = if run.is_thorough() { 128 } else { 4 };
     let per_case = 8192usize;
     let kmax = 720i64 * 3600 * q as i64;
     let total_points = (2 * kmax + 1) as usize;
